@@ -900,6 +900,22 @@ def compressed_frame(an, rep):
                 "payload must be inflated with read_to_end", mir.loc(r, 0))
         ret = strip_refs(p.outcome[1])
         R.check(rte and "with_capacity" in show(ret) or "Vec" in show(ret), r.key, "result", "result is not the inflated buffer")
+    # rejections: a frame is refused only because one of the three reads failed (propagated) or because the inflater failed;
+    # an error built before the inflater ran is a verdict on the two length fields alone, which refuses frames the writer
+    # can legitimately produce (deflate's expansion on incompressible data is an implementation detail of the encoder)
+    n_err = 0
+    for p in walk.walk(r, core):
+        if p.outcome[0] != "return" or walk.is_err_term(p.outcome[1]) is False:
+            continue
+        n_err += 1
+        out = strip_refs(p.outcome[1])
+        inflated = any(c[3] == "Read::read_to_end" for c in p.calls())
+        propagated = out[0] == "errprop" and strip_refs(out[1])[0] == "call" and (
+            strip_refs(out[1])[1].startswith("BinaryInput::") or "as BinaryInput>::" in strip_refs(out[1])[1] or
+            strip_refs(out[1])[1].endswith(("::try_from", "::try_into")))
+        R.check(inflated or propagated, r.key, "rejection", "a frame is rejected before it is inflated, on a condition over its "
+                "length fields: %s" % show(out)[:90], mir.loc(r, 0), sample={"reader error path": show(out)[:60]})
+    R.floor("error paths of read_compressed", n_err, 3)
     return R
 
 
